@@ -100,6 +100,10 @@ Apply(tree, depth, a) ==
              old == AtPath(t1, a.pt).v
          IN Outcome(PutPath(t1, a.pt, Leaf(WriteVal(a.kind, old, a.v))), "ok")
     [] a.op \in {"get", "getpos", "len", "noop", "obs"} -> Outcome(tree, "ok")      \* observers
+    [] a.op = "hwrite" ->                   \* write through a handle obtained earlier by getPayloadRef(*pt)
+         Outcome(PutPath(tree, a.pt, Leaf(WriteVal(a.kind, AtPath(tree, a.pt).v, a.v))), "ok")
+    [] a.op = "getposref" ->                \* getPositionRef(c) on the fiber at path: creates the element if absent
+         Outcome(Ensure(tree, Append(a.path, a.c), depth), "ok")
     [] OTHER ->
          LET f == FiberAt(tree, a.path)
              r == ApplyFiber(f, a, depth - Len(a.path))
@@ -109,9 +113,16 @@ Apply(tree, depth, a) ==
 FiberPaths(tree, depth) == UNION {PathsAt(tree, <<>>, d) : d \in 0..(depth - 1)}
 LeafPaths(tree, depth)  == PathsAt(tree, <<>>, depth - 1)
 
+\* documented precondition of a search-start shortcut: position p holds a coordinate <= c (p = 0 always legal); -1 = None
+LegalSP(e, c, sp) == sp = -1 \/ (sp = 0 /\ Len(e) > 0) \/ (sp > 0 /\ sp < Len(e) /\ e[sp + 1][1] <= c)
+
 Enabled(tree, depth, a) ==
   CASE a.op \in {"ref"}   -> Len(a.pt) \in 1..depth
     [] a.op = "write"      -> Len(a.pt) = depth
+    [] a.op = "hwrite"     -> Len(a.pt) = depth /\ AtPath(tree, a.pt).k = "L"
+    [] a.op = "get"        -> /\ a.path \in FiberPaths(tree, depth) /\ Len(a.path) + Len(a.pt) <= depth /\ Len(a.pt) >= 1
+                              /\ LegalSP(FiberAt(tree, a.path).e, a.pt[1], a.sp) /\ (a.sp # -1 => Len(a.pt) = 1)
+    [] a.op \in {"getpos", "getposref"} -> a.path \in FiberPaths(tree, depth) /\ LegalSP(FiberAt(tree, a.path).e, a.c, a.sp)
     [] a.op \in {"append", "extend", "fimul", "fiadd", "updpayloads"} -> a.path \in LeafPaths(tree, depth)
     [] a.op = "setitem"    -> a.path \in LeafPaths(tree, depth) /\ a.pos < Len(FiberAt(tree, a.path).e)
     [] a.op \in {"clear", "itershaperef", "updcoords"} -> a.path \in FiberPaths(tree, depth)
